@@ -13,6 +13,38 @@ def derivops_run():
     return run_tlc("DerivOps.tla", cfg(invariants=["DenseOK", "ExportDeriv", "DerivGenericInv"]), "derivops", workers=3, timeout=600)
 
 
+# DerivAlgP.tla repeats the container's match expressions of DualB.tla over an abstract module; the copy must not go stale
+_ALG = {"DAddMatch": "DAdd", "DSubMatch": "DSub", "DNeg": "DNeg", "DAddAssign": "DAddAssign", "DSubAssign": "DSubAssign",
+        "DMulT": "DMulT", "DDivT": "DDivT", "DMulAssignT": "DMulAssignT", "DDivAssignT": "DDivAssignT", "DMul": "DMul"}
+
+
+def _defn(text, name):
+    m = re.search(r"^%s\([^)]*\) ==(.*?)(?=^\S)" % re.escape(name), text, re.S | re.M)
+    if not m:
+        raise ToolError("definition %s not found" % name)
+    body = re.sub(r"\\\*[^\n]*", "", m.group(1))
+    return " ".join(body.split())
+
+
+def derivalg_in_sync():
+    b = open(os.path.join(SPEC, "DualB.tla")).read()
+    a = open(os.path.join(SPEC, "DerivAlgP.tla")).read()
+    subs = [(r"MatZip\(a\.m, b\.m, LAMBDA x, y : SAdd\(x, y\)\)", "MAdd(a.m, b.m)"),
+            (r"MatZip\(a\.m, b\.m, LAMBDA x, y : SSub\(x, y\)\)", "MSub(a.m, b.m)"),
+            (r"MatMap\((\w)\.m, LAMBDA \w : SNeg\(\w\)\)", r"MNeg(\1.m)"),
+            (r"MatMap\((\w)\.m, LAMBDA x : SMul\(x, s\)\)", r"MScale(\1.m, s)"),
+            (r"MatMap\((\w)\.m, LAMBDA x : SDiv\(x, s\)\)", r"MDivS(\1.m, s)"),
+            (r"MatMul\(a\.m, b\.m\)", "MMul(a.m, b.m)")]
+    for nb, na in _ALG.items():
+        x = _defn(b, nb)
+        for pat, rep in subs:
+            x = re.sub(pat, rep, x)
+        y = _defn(a, na)
+        if x != y:
+            raise ToolError("DerivAlgP.%s is not the abstract form of DualB.%s:\n  %s\n  %s" % (na, nb, x, y))
+    return len(_ALG)
+
+
 def run(tier):
     kinds = VEC_QUICK if tier == "quick" else VEC_THOROUGH
     chk, extra = machine_check("C07", tier, "AllOps", OPS, kinds, ["AbsentIsZero"], "zerofill",
@@ -22,12 +54,19 @@ def run(tier):
                            "representation and with every absent part replaced by explicit zeros: all parts must agree; "
                            "random accumulator histories recorded on the real crate are validated by TraceCalc.tla",
                            traces=(kinds, 2500 if tier == "quick" else 30000),
-                           extra_jobs=[derivops_run] + [lambda k=k, n=n, m=m, i=i: machine_run(k, n, m, "AllOps", depth=3, mant=53, props=False, inner=i,
+                           extra_jobs=[derivops_run, lambda: run_tlapm("DerivAlgP.tla", "tlaps_derivalg")] + [lambda k=k, n=n, m=m, i=i: machine_run(k, n, m, "AllOps", depth=3, mant=53, props=False, inner=i,
                                                                                                loadset="LoadSetNested", workers=3, tag="_zf")
                                                         for (k, n, m, i) in NESTED_THOROUGH if k.endswith("Vec")])
-    dv = extra[0]
+    dv, tl = extra[0], extra[1]
+    nsync = derivalg_in_sync()
+    chk.cov["tlaps_DerivAlgP"] = {"status": tl["status"], "obligations": tl["obligations"], "wall_s": tl["wall_s"], "definitions_in_sync_with_DualB": nsync,
+                                  "what": "every container operator commutes with absent |-> zeros for EVERY matrix value (abstract module with a zero; proof)"}
+    if tl["status"] == "failed":
+        raise ToolError("tlapm: the proof of DerivAlgP.tla does not go through: " + tl["tail"][-600:])
+    if tl["status"] == "unavailable":
+        chk.assumptions.append("tlapm could not be run: the unbounded companion proof DerivAlgP.tla was not re-checked (TLC's DenseOK stands)")
     # nested vector types (DualVec<Dual64>, Dual2Vec<Dual64>): zero-fill replay with zeros of the inner number type
-    for res in extra[1:]:
+    for res in extra[2:]:
         chk.add_tlc(res, "calculator behaviours of a nested vector type, all presence patterns")
         if res.violated:
             chk.model_violation(res, "MachineN")
